@@ -72,6 +72,10 @@ CLAIMED = {
             "Byte-class tables of the Name grammar folded over all 256 bytes (and compared with the lexer's and parser's), shape of is_valid_syntax, who-calls gate on the unchecked constructors (dominating successful check / grammar-matching literal / const-asserted macro), guard of the numeric serde visitors, the slice-pattern language of IntValue::valid_syntax, and the Display templates of Type vs the CST conversion.",
             "Clause-level: float printing is std behaviour; numeric round trips are not decided; FloatValue::valid_syntax's language is decided only in the thorough tier if at all.",
             "pattern-set evaluation, dominating-fact (GUARD) who-calls rule, format-template decoding over rustc HIR/MIR", False),
+    "C09": ("other",
+            "Composition of three extracted tables: the serializer's escaped-character set and per-character escape text, the lexer's string-body/escape tables and the decoder's table - every character the lexer cannot take raw is escaped and every escape decodes back to the same character; plus the presence rules of can_be_block_string and the triple-quote constants shared with the parser.",
+            "Decides the table-level inverse relation and the block-string gate; the round trip over all Unicode strings (indentation arithmetic, line joining) is not decided.",
+            "pattern-set evaluation of closures/match arms, format-template decoding, const comparison over rustc HIR", False),
 }
 
 NOT_APPLICABLE = {
